@@ -8,6 +8,7 @@ import (
 	"strings"
 	"time"
 
+	"verif/check"
 	"verif/contract"
 	"verif/load"
 	"verif/run"
@@ -24,6 +25,28 @@ func main() {
 	switch os.Args[1] {
 	case "prove":
 		prove(os.Args[2:])
+	case "check", "baseline":
+		fs := flag.NewFlagSet("check", flag.ExitOnError)
+		tier := fs.String("tier", "", "quick|thorough")
+		repo := fs.String("repo", "/repo", "")
+		vdir := fs.String("verif", "/verif", "")
+		if len(os.Args) < 3 {
+			fmt.Println("usage: verif check <Cxx> [--tier quick|thorough]")
+			os.Exit(2)
+		}
+		fs.Parse(os.Args[3:])
+		t := *tier
+		if t == "" {
+			t = os.Getenv("VERIF_TIER")
+		}
+		if t == "" {
+			t = "quick"
+		}
+		seed := 1
+		if s := os.Getenv("VERIF_SEED"); s != "" {
+			fmt.Sscan(s, &seed)
+		}
+		os.Exit(check.Run(os.Args[2], *repo, *vdir, t, seed, os.Args[1] == "baseline"))
 	default:
 		fmt.Println("unknown command")
 		os.Exit(2)
@@ -87,16 +110,24 @@ func prove(argv []string) {
 		for _, c := range cases {
 			ex := symex.NewExec(prog, cs, tb)
 			ex.SetPrefix("")
-			if ng := ex.VerifyFunc(fn, fc, c); ng != nil {
-				fmt.Printf("NOT GENERATED %s: %s\n", ng.Func, ng.Why)
-			}
 			if fc.Flags["pure"] {
 				if ng := ex.VerifyLemmas(fn, fc, c); ng != nil {
 					fmt.Printf("NOT GENERATED lemmas %s: %s\n", ng.Func, ng.Why)
 				}
 			}
+			if fc.Flags["sortlaws"] {
+				var excl []string
+				if e := fc.Opts["exclude"]; e != "" {
+					excl = strings.Split(e, ",")
+				}
+				if ng := ex.SortLaws(fn, fc, excl, ""); ng != nil {
+					fmt.Printf("NOT GENERATED sortlaws %s: %s\n", ng.Func, ng.Why)
+				}
+			} else if ng := ex.VerifyFunc(fn, fc, c); ng != nil {
+				fmt.Printf("NOT GENERATED %s: %s\n", ng.Func, ng.Why)
+			}
 			if fc.Flags["orderlaws"] {
-				if ng := ex.OrderLaws(fn, fc); ng != nil {
+				if ng := ex.OrderLaws(fn, fc, nil); ng != nil {
 					fmt.Printf("NOT GENERATED laws %s: %s\n", ng.Func, ng.Why)
 				}
 			}
